@@ -3,7 +3,39 @@
 #include "common.h"
 void harness(void)
 {
-  uint8_t *in_data; uint64_t in_length; arr_u8_12 *in_txid;
+  uint64_t in_length;
+  __CPROVER_assume(in_length <= 65535);
+  uint8_t *in_data = malloc(in_length ? in_length : 1);   /* an object of exactly the datagram's size */
+  arr_u8_12 *in_txid = malloc(sizeof(arr_u8_12));
+  __CPROVER_assume(in_data && in_txid && __g_t < 12 && __g_i < 16);
+  __g_ntop_calls = 0;
   opt_network__StunParserResult r = network__parse_stun_response(in_data, in_length, in_txid);
+  const uint8_t *data = in_data;
+  if (r.has) {
+    /* an address is reported only for a Binding Success response with matching transaction id ... */
+    __CPROVER_assert(in_length >= 20 && data[0] == 0x01 && data[1] == 0x01 && in_length >= 20ul + BE16(data + 2), "Binding Success response, length consistent");
+    __CPROVER_assert(data[8 + __g_t] == in_txid->_[__g_t], "transaction id matches");
+    /* ... taken from a (XOR-)MAPPED-ADDRESS attribute that lies wholly inside the datagram and is well-formed ... */
+    uint64_t o = __g_off;
+    __CPROVER_assert(o >= 20 && o + 4 <= in_length, "attribute header inside the datagram");
+    uint16_t a_type = BE16(data + o), a_len = BE16(data + o + 2);
+    _Bool x = (a_type == 0x0020);
+    __CPROVER_assert((a_type == 0x0001 || a_type == 0x0020) && a_len >= 4 && o + 4 + a_len <= in_length, "MAPPED-ADDRESS or XOR-MAPPED-ADDRESS, value inside the datagram");
+    uint8_t family = data[o + 5];
+    __CPROVER_assert((family == 1 && a_len >= 8 && __g_ntop_af == 2) || (family == 2 && a_len >= 20 && __g_ntop_af == 10), "family and length are a valid pair");
+    /* ... decoded exactly as RFC 5389 15.1 / 15.2 */
+    __CPROVER_assert(r.v.port == (uint16_t)(BE16(data + o + 6) ^ (x ? 0x2112 : 0)), "port decoded per RFC 5389");
+    if (__g_ntop_af == 2 && __g_i < 4) {
+      uint8_t raw = data[o + 8 + __g_i];
+      __CPROVER_assert(__g_ntop_bytes[__g_i] == (uint8_t)(raw ^ (x ? COOKIE(__g_i) : 0)), "IPv4 address decoded per RFC 5389");
+    }
+    if (__g_ntop_af == 10 && family == 2 && a_len >= 20 && o + 4 + a_len <= in_length) {
+      uint8_t raw = data[o + 8 + __g_i];
+      __CPROVER_assert(__g_ntop_bytes[__g_i] == (uint8_t)(raw ^ (x ? (__g_i < 4 ? COOKIE(__g_i) : in_txid->_[__g_i < 4 ? 0 : __g_i - 4]) : 0)), "IPv6 address decoded per RFC 5389");
+    }
+    __CPROVER_assert(__g_ntop_calls == 1, "exactly one address is formatted");
+  } else {
+    __CPROVER_assert(__g_ntop_calls == 0, "no address reported");
+  }
   CANARY_POINT();
 }
